@@ -167,7 +167,9 @@ def seeded_for(pid: str) -> list[str]:
                 m = json.load(open(mp))
             except ValueError:
                 continue
-            if pid in (m.get("detected_by") or {}):
+            d = (m.get("detected_by") or {}).get(pid)
+            # only a reported violation counts as "detected by this check" (an inconclusive run of another property's check on the mutant is not a detection to keep)
+            if d is not None and (not isinstance(d, dict) or d.get("exit", 1) == 1 or name.startswith(pid + "-")):
                 out.append(name)
     return out
 
